@@ -225,6 +225,8 @@ def Item.existing : Item → Bool
 
 inductive Err where
   | templateNotFound | templatesNotFound | undefinedError | syntaxError | keyError
+  /-- any other exception class raised while a template renders (ZeroDivisionError, …) -/
+  | other (cls : String)
   deriving DecidableEq, Repr
 
 /-- `TemplatesNotFound` is a subclass of `TemplateNotFound` (exceptions.py) -/
@@ -268,5 +270,27 @@ def includeResolve (t : IncTarget) (ignoreMissing : Bool) : Except Err (Option N
   match t.load with
   | .ok n => .ok (some n)
   | .error e => if ignoreMissing && e.isNotFound then .ok none else .error e
+
+/-- One include statement as the generated code runs it: the lookup inside the guarded region, then — in the `else:`
+    arm, OUTSIDE the guarded region — the rendering of the target.  `render t` is what rendering `t` does: its text,
+    or the exception raised while it renders (for instance a `TemplateNotFound` of a template that `t` itself
+    includes, imports or extends). -/
+def includeStmt (t : IncTarget) (ignoreMissing : Bool) (render : Name → Except Err String) : Except Err String :=
+  match includeResolve t ignoreMissing with
+  | .error e => .error e
+  | .ok none => .ok ""
+  | .ok (some n) => render n
+
+/-- The shape of the `try` statement visit_Include emits for `ignore missing` (compiler.py:1039-1067, 1096), read
+    back from the generated code by the L-code tie: what the `try:` body holds, what each handler catches and does,
+    where the target is rendered.  `includeStmt` / `includeResolve` are the semantics of exactly this shape. -/
+structure IncludeGuard where
+  guarded : List String
+  handlers : List (String × List String)
+  renderIn : String
+  hasFinally : Bool
+
+def includeGuard : IncludeGuard :=
+  { guarded := ["lookup"], handlers := [("TemplateNotFound", ["Pass"])], renderIn := "else", hasFinally := false }
 
 end JinjaV.CtxFlow
